@@ -407,6 +407,9 @@ def curve_info(exe):
     return dict(t.split("=") for t in out.split()[1:] if "=" in t)
 
 
+SAN = "p255-extnd-san"
+
+
 def streams(ctx, scale=1):
     quick = ctx.tier == "quick"
     ng = (260 if quick else 20000) * scale
@@ -414,14 +417,30 @@ def streams(ctx, scale=1):
     ne = (160 if quick else 8000) * scale
     nh = (14 if quick else 400) * scale
     res = []
-    for cfg in CONFIGS:
+    for cfg in CONFIGS + [SAN]:
         exe = _exe(ctx, cfg)
         kv = curve_info(exe)
         lines = ["cfg", "ed_param 0", "ed_param 2", "ed_param any"]
         if "p" in kv:
             cv = CVS[cfg] = Ed(kv)
-            lines += gen_group(ctx.rng, cv, SYS[cfg], ng) + gen_mul(ctx.rng, cv, SYS[cfg], nm) + gen_enc(ctx.rng, cv, SYS[cfg], ne)
-            lines += gen_map(ctx.rng, nh)
+            if cfg == SAN:
+                # the same generators under AddressSanitizer / UBSan, shorter; lines that are known to fault (C17-F4, C17-F5) are kept out
+                # of the stream except one witness each at the end (every fault costs an oracle restart)
+                body = (gen_group(ctx.rng, cv, SYS[cfg], ng // 4) + gen_mul(ctx.rng, cv, SYS[cfg], nm // 2)
+                        + gen_enc(ctx.rng, cv, SYS[cfg], ne // 3) + gen_map(ctx.rng, 3))
+                keep = []
+                for l in body:
+                    rt = routines(cfg, l.split())
+                    if any(v == "lwreg" or _bits(k) > LIM.get(v, INF) for v, k in rt):
+                        continue
+                    keep.append(l)
+                P = cv.mul(cv.g, 5)
+                keep.append("edm lwreg 0 %x,%x 7" % P)
+                keep.append("edm fix_basic 0 %x,%x %x" % (P[0], P[1], (1 << 300) + 1))
+                lines += keep
+            else:
+                lines += gen_group(ctx.rng, cv, SYS[cfg], ng) + gen_mul(ctx.rng, cv, SYS[cfg], nm) + gen_enc(ctx.rng, cv, SYS[cfg], ne)
+                lines += gen_map(ctx.rng, nh)
         res.append({"name": "ed-" + cfg, "cfg": cfg, "exe": exe, "lines": lines})
     return res
 
@@ -439,5 +458,84 @@ def nontrivial(r):
     return not r["got"].startswith("err") and not r["got"].startswith("0,1")
 
 
+# ---- known findings -------------------------------------------------------------------------------------------------
+INF = 10 ** 9
+# longest scalar (bits) each routine handles: the ed_mul_* family never reduces the scalar modulo the group order (the ep_* routines
+# it was cloned from do), so the fixed-size recoding buffers / precomputed tables bound the scalar
+LIM = {"basic": INF, "monty": INF, "lwnaf": 255, "slide": 256, "lwreg": 256, "fix_basic": 253, "fix_combs": 255, "fix_combd": 255,
+       "fix_lwnaf": 255, "trick": 256, "inter": 255, "joint": 255, "dig": INF}
+# ED_METHD of each configuration (tools/relicbuild.py): what the macros ed_mul / ed_mul_fix / ed_mul_sim expand to
+METHD = {"p255": ("lwnaf", "fix_combs", "inter"), "p255-extnd": ("slide", "fix_lwnaf", "inter"), "p255-basic": ("monty", "fix_combd", "joint"),
+         "p255-extnd-san": ("basic", "fix_basic", "trick")}
+
+
+def _bits(tok):
+    return abs(int(tok, 16)).bit_length()
+
+
+def _is_O(tok):
+    f = tok.split(",")
+    return int(f[0], 16) == 0 and int(f[1], 16) == 1
+
+
+def routines(cfg, t):
+    """[(routine, scalar token)] the line reaches, following the early exits of the C code"""
+    mul, fix, sim = METHD[cfg]
+    if t[0] == "edm":
+        v, k = t[1], t[4]
+        v = {"mul": mul, "gen": fix, "fix_": fix}.get(v, v)
+        return [(v, k)]
+    if t[0] == "eds":
+        v, P, k, Q, m = t[1], t[2], t[3], t[4], t[5]
+        if v == "basic":
+            return [(mul, k), (mul, m)]
+        if v == "gen":
+            if int(k, 16) == 0:
+                return [(mul, m)]
+            if int(m, 16) == 0 or _is_O(Q):
+                return [(fix, k)]
+            if sim == "inter" and fix == "fix_lwnaf":
+                return [("inter", k), ("inter", m)]
+            v = sim
+        if v == "sim":
+            v = sim
+        if v in ("trick", "inter", "joint"):
+            if int(k, 16) == 0 or _is_O(P):
+                return [(mul, m)]
+            if int(m, 16) == 0 or _is_O(Q):
+                return [(mul, k)]
+            return [(v, k), (v, m)]
+    return []
+
+
+def _spec_of(r):
+    v = r.get("verdict", "")
+    return v.split("spec=[")[1].split("]")[0] if "spec=[" in v else None
+
+
 def matches_finding(f, r):
+    t = r["line"].split()
+    pred, got, cfg = f.get("pred"), r["got"], r["cfg"]
+    if cfg not in METHD:
+        return False
+    if pred in ("long_scalar_rejected", "long_scalar_wrong"):
+        over = [1 for v, k in routines(cfg, t) if _bits(k) > LIM.get(v, INF)]
+        if not over:
+            return False
+        return (got == "err") == (pred == "long_scalar_rejected")
+    if pred == "lwreg_extnd_t":
+        # ed_mul_reg_imp: `#if ED_Afp == EXTND` never holds, the T coordinate of the parity correction is not copied
+        return (SYS[cfg] == "extnd" and any(v == "lwreg" and int(k, 16) % 2 == 0 for v, k in routines(cfg, t))
+                and _spec_of(r) is not None and got == _spec_of(r) + " T-BAD")
+    if pred == "lwreg_reg_overflow":
+        return cfg.endswith("-san") and got.startswith("CRASH") and any(v == "lwreg" for v, _ in routines(cfg, t))
+    if pred == "long_scalar_memory":
+        return cfg.endswith("-san") and got.startswith("CRASH") and any(_bits(k) > LIM.get(v, INF) for v, k in routines(cfg, t))
+    if pred == "sub_extnd_other_builds":
+        return t[0] == "ed2" and t[1] == "sub_extnd" and SYS[cfg] != "extnd"
+    if pred == "neg_basic_z":
+        return (t[0] == "ed1" and (t[1] == "neg_basic" or (t[1] == "neg" and SYS[cfg] == "basic")) and t[2] == "0"
+                and _spec_of(r) is not None and got == _spec_of(r) + " BASIC-WITH-Z!=1")
+    if pred == "upk_status":
+        return t[0] == "ed_upk" and got.startswith("r=1 ") and got.endswith(" on=0")
     return False
